@@ -1,9 +1,7 @@
-// l1 generates and runs protocol-level histories (mock pipes, public ProtocolBase API, sequential
-// driving with quiescence detection) and writes them as Gallina terms.
-//
-//	l1 <proto> <outdir>            parent: spawns workers, one defs_NNN.v shard per worker
-//	l1 <proto> -worker <i> <n> <timed> <out.v>
-package main
+// Package l1run is the common main of the protocol-level history harnesses (mock pipes, public
+// ProtocolBase API, sequential driving with quiescence detection): the parent spawns 16 worker
+// processes (quiescence detection is per process), each writes one defs_NNN.v shard of histories.
+package l1run
 
 import (
 	"fmt"
@@ -17,31 +15,26 @@ import (
 	"mangosverif/coqgen"
 )
 
-type genFunc func(r *rand.Rand, timed bool) (coq string, discarded string, note string)
+// GenFunc produces one history: its Gallina rendering, or a reason to discard it, and an optional note.
+type GenFunc func(r *rand.Rand, timed bool) (coq string, discarded string, note string)
 
-var gens = map[string]genFunc{
-	"req": genReq,
-}
+// ScriptsEnabled is true in the first untimed and the first timed worker: they run the directed histories first.
+var ScriptsEnabled bool
 
-func main() {
-	if len(os.Args) < 3 {
-		fmt.Fprintln(os.Stderr, "usage: l1 <proto> <outdir> | l1 <proto> -worker i n timed out.v")
+// Main is the entry point of every l1 harness binary: `<bin> <outdir>` (parent) or `<bin> -worker i n timed out.v`.
+func Main(gen GenFunc) {
+	if len(os.Args) < 2 {
+		fmt.Fprintln(os.Stderr, "usage: <bin> <outdir> | <bin> -worker i n timed out.v")
 		os.Exit(2)
 	}
-	proto := os.Args[1]
-	gen, ok := gens[proto]
-	if !ok {
-		fmt.Fprintln(os.Stderr, "unknown protocol", proto)
-		os.Exit(2)
-	}
-	if os.Args[2] == "-worker" {
-		i, _ := strconv.Atoi(os.Args[3])
-		n, _ := strconv.Atoi(os.Args[4])
-		timed := os.Args[5] == "1"
-		worker(gen, i, n, timed, os.Args[6])
+	if os.Args[1] == "-worker" {
+		i, _ := strconv.Atoi(os.Args[2])
+		n, _ := strconv.Atoi(os.Args[3])
+		timed := os.Args[4] == "1"
+		worker(gen, i, n, timed, os.Args[5])
 		return
 	}
-	outdir := os.Args[2]
+	outdir := os.Args[1]
 	nw := 16
 	per, perTimed := 60, 14
 	if coqgen.Thorough() {
@@ -49,6 +42,9 @@ func main() {
 	}
 	if v := os.Getenv("L1_PER_WORKER"); v != "" {
 		per, _ = strconv.Atoi(v)
+	}
+	if v := os.Getenv("L1_PER_TIMED_WORKER"); v != "" {
+		perTimed, _ = strconv.Atoi(v)
 	}
 	var wg sync.WaitGroup
 	fail := false
@@ -62,7 +58,7 @@ func main() {
 			if i >= timedFrom() {
 				timed, n = "1", perTimed
 			}
-			cmd := exec.Command(os.Args[0], proto, "-worker", fmt.Sprint(i), fmt.Sprint(n), timed,
+			cmd := exec.Command(os.Args[0], "-worker", fmt.Sprint(i), fmt.Sprint(n), timed,
 				filepath.Join(outdir, fmt.Sprintf("defs_%03d.v", i)))
 			cmd.Stderr = os.Stderr
 			cmd.Env = os.Environ()
@@ -80,11 +76,8 @@ func main() {
 	}
 }
 
-// only the first untimed and the first timed worker run the directed scripts
-var scriptsEnabled bool
-
-func worker(gen genFunc, idx, n int, timed bool, out string) {
-	scriptsEnabled = idx == 0 || idx == timedFrom()
+func worker(gen GenFunc, idx, n int, timed bool, out string) {
+	ScriptsEnabled = idx == 0 || idx == timedFrom()
 	r := rand.New(rand.NewSource(coqgen.Seed()*1000 + int64(idx)))
 	w := coqgen.Create(out)
 	defer w.Close()
